@@ -850,7 +850,7 @@ def _subelementBuilder(
     # evaluated, the list of durations gets updated. That new list
     # is newdurations
 
-    newdurations = np.array(durations)
+    newdurations = np.array(durations, dtype=float)
 
     # All waveforms must ultimately have an integer number of samples
     # Now figure out from the durations what these integers are
